@@ -173,6 +173,10 @@ def consume(ctx, results, tag):
         if r is None:
             continue
         if "harness_exception" in r:
+            lf = core.library_failure(r)
+            if lf is not None:
+                ctx.violation(lf)
+                continue
             raise tlc.MachineryError("replay worker failed: %s\n%s" % (r["harness_exception"], r["tb"]))
         ctx.count(r.get("n", 1))
         ctx.traces += 1
